@@ -112,13 +112,18 @@ def tableOf (shared : Bool) (w : World α) (s : Nat) : Table :=
 def setTable (shared : Bool) (w : World α) (s : Nat) (t : Table) : World α :=
   if shared then { w with cls := t } else { w with streams := w.streams.set s t }
 
-/-- the file contents `Reader._push_pieces` reads, and the world after `stream.close()` -/
-def readAll (shared : Bool) (cap : Nat) (w : World α) : List (List α) × World α :=
+/-- the contents `Reader._push_pieces` reads when the stream's file list names the paths `js`
+    (in that order), and the world after `stream.close()` -/
+def readPaths (shared : Bool) (cap : Nat) (w : World α) (js : List Nat) : List (List α) × World α :=
   -- `stream = TorrentFileStream(torrent)`: the private stream's table
   let t0 : Table := if shared then w.cls else []
-  let r := openAll cap w.dir (List.range w.dir.length) t0
+  let r := openAll cap w.dir js t0
   -- `finally: stream.close()` empties the table the stream used
   (r.1.map fun i => w.inodes.getD i [], if shared then { w with cls := [] } else w)
+
+/-- … when the metainfo lists every path of the directory once, in directory order -/
+def readAll (shared : Bool) (cap : Nat) (w : World α) : List (List α) × World α :=
+  readPaths shared cap w (List.range w.dir.length)
 
 /-- one step of the history; `generate` also yields the observable outcome -/
 def step (shared : Bool) (H : List α → δ) (L cap : Nat) (w : World α) :
@@ -164,5 +169,180 @@ def sizesKept (sizes : List Nat) : List (Op α) → Bool
   | .replace j bytes :: ops => (sizes[j]? == some bytes.length) && sizesKept sizes ops
   | .rewrite j bytes :: ops => (sizes[j]? == some bytes.length) && sizesKept sizes ops
   | _ :: ops => sizesKept sizes ops
+
+/-! ## The metainfo side of the history (round 3)
+
+`generate()` takes everything it needs to know about *what* to hash from the Torrent object at the
+moment it runs: `Reader._push_pieces` → `TorrentFileStream.iter_pieces` iterates
+`self._torrent.files` — a getter that builds the `File` tuple from `metainfo['info']` on every
+access (name, `info['files']` in list order with `path`/`length`, or `info['length']`) — and reads
+`self._torrent.piece_size` (= `info['piece length']`); `Torrent.generate` compares the number of
+digests with `Torrent.pieces` (= ⌈`Torrent.size` / piece length⌉, `size` summed from the metainfo).
+Nothing of this is remembered between calls.  The metainfo is a plain user-editable mapping:
+between two runs the file list may be re-ordered in place, an entry's path or length edited,
+the list object replaced, the piece length changed, the object copied.
+
+* `Entry` = one `info['files'][i]`: the path it names (an id into the content directory
+  `World.dir`; an id ≥ `dir.length` is a path that does not exist) and the recorded length.
+* `Meta` = what `generate()` reads of `metainfo['info']`; `listId` is the identity of the list
+  object (`id(info['files'])`) — irrelevant for the code, it is what a cheap memo key would look at.
+* `Tor` = a Torrent object: its metainfo and the slot a memoising `files` getter would fill
+  (`memo`; the code has no such slot, `filesOf false` never looks at it).
+* `MOp`: the disk/stream operations of the first part, `create` (a new path appears), `setMeta k m`
+  (after an edit — in place or not — Torrent `k`'s metainfo reads `m`), `newTor m` (`copy()`, another
+  `Torrent(...)`), `get k` (a getter that could memoise is called), `generate k`.
+* `genM`: the run.  Pre-check of `Torrent.generate` (`sum(real_size(fp) for fp in self.filepaths)
+  < 1` → PathError; a missing path → ReadError), per file of the stream's list the size check of
+  `iter_pieces` (`file.size != os.path.getsize(filepath)` → the error item is raised by
+  `GenerateCallback`), then the private stream of the first part over the listed paths, chunking
+  at the metainfo's piece length, count check against the metainfo's sizes.
+* `specGen` / `specHistM`: the demand — a function of the current metainfo and the current bytes.
+-/
+
+structure Entry where
+  /-- the path `info['files'][i]['path']` names: index into the content directory -/
+  path : Nat
+  /-- `info['files'][i]['length']` -/
+  length : Nat
+deriving DecidableEq, Repr
+
+structure Meta where
+  /-- `info['piece length']` -/
+  L : Nat
+  /-- `info['files']` in list order (single-file torrent: one entry for `info['length']`) -/
+  files : List Entry
+  /-- `info['name']` (opaque; the content path's own name selects what is read) -/
+  name : Nat := 0
+  /-- identity of the list object `info['files']` -/
+  listId : Nat := 0
+deriving DecidableEq, Repr
+
+structure Tor where
+  info : Meta
+  /-- (fingerprint, file list) a memoising `Torrent.files` would hold — not in the code -/
+  memo : Option (List Nat × List Entry) := none
+deriving Repr
+
+structure MWorld (α : Type) where
+  disk : World α
+  tors : List Tor
+deriving Repr
+
+inductive MOp (α : Type) where
+  | disk (op : Op α)
+  | create (bytes : List α)
+  | setMeta (k : Nat) (m : Meta)
+  | newTor (m : Meta)
+  | get (k : Nat)
+  | generate (k : Nat)
+deriving Repr
+
+inductive Res (δ : Type) where
+  | out (o : Generate.Outcome δ)   -- the run came to the count check
+  | failed                         -- PathError / ReadError / VerifyFileSizeError raised, nothing stored
+deriving DecidableEq, Repr
+
+/-- `self._torrent.files` as the stream sees it.  `memo = false` is the code: built from the
+    current metainfo.  `memo = true`: a getter that keeps the tuple it built under the fingerprint
+    `fp` of the metainfo and re-uses it while the fingerprint is unchanged. -/
+def filesOf (memo : Bool) (fp : Meta → List Nat) (t : Tor) : List Entry × Tor :=
+  if memo then
+    match t.memo with
+    | some (f, es) =>
+      if f = fp t.info then (es, t) else (t.info.files, { t with memo := some (fp t.info, t.info.files) })
+    | none => (t.info.files, { t with memo := some (fp t.info, t.info.files) })
+  else (t.info.files, t)
+
+/-- `os.path.getsize` of path `p` (`none`: no such file) -/
+def sizeOnDisk (w : World α) (p : Nat) : Option Nat :=
+  (w.dir[p]?).map fun i => (w.inodes.getD i []).length
+
+/-- the disk / stream operations of the first part (outcomes of a bare `Op.generate` are not
+    observed here) -/
+def diskStep (cap : Nat) (w : World α) (op : Op α) : World α :=
+  (step false (fun _ => ()) 1 cap w op).1
+
+def genM (memo : Bool) (fp : Meta → List Nat) (H : List α → δ) (cap : Nat) (w : World α) (t : Tor) :
+    Res δ × World α × Tor :=
+  let r := filesOf memo fp t
+  let es := r.1
+  let m := t.info
+  if !(m.files.all fun e => (sizeOnDisk w e.path).isSome) ||
+      (m.files.map fun e => (sizeOnDisk w e.path).getD 0).sum < 1 then (.failed, w, r.2)
+  else if !(es.all fun e => sizeOnDisk w e.path == some e.length) then (.failed, w, r.2)
+  else
+    let rd := readPaths false cap w (es.map (·.path))
+    (.out (Generate.finish (Generate.torrentPieces (m.files.map (·.length)).sum m.L)
+        (Generate.collectorHashes ((Generate.readerTasks m.L rd.1).map (Generate.hashTask H)))),
+      rd.2, r.2)
+
+/-- update Torrent object `k` (no such object: nothing happens) -/
+def modifyTor (ts : List Tor) (k : Nat) (f : Tor → Tor) : List Tor :=
+  match ts[k]? with
+  | some t => ts.set k (f t)
+  | none => ts
+
+def mstep (memo : Bool) (fp : Meta → List Nat) (H : List α → δ) (cap : Nat) (w : MWorld α) :
+    MOp α → MWorld α × Option (Res δ)
+  | .disk op => ({ w with disk := diskStep cap w.disk op }, none)
+  | .create bytes =>
+    ({ w with disk := { w.disk with inodes := w.disk.inodes ++ [bytes],
+                                    dir := w.disk.dir ++ [w.disk.inodes.length] } }, none)
+  | .setMeta k m => ({ w with tors := modifyTor w.tors k fun t => { t with info := m } }, none)
+  | .newTor m => ({ w with tors := w.tors ++ [{ info := m }] }, none)
+  | .get k => ({ w with tors := modifyTor w.tors k fun t => (filesOf memo fp t).2 }, none)
+  | .generate k =>
+    match w.tors[k]? with
+    | some t =>
+      let r := genM memo fp H cap w.disk t
+      ({ disk := r.2.1, tors := w.tors.set k r.2.2 }, some r.1)
+    | none => (w, some .failed)
+
+def runHistM (memo : Bool) (fp : Meta → List Nat) (H : List α → δ) (cap : Nat) :
+    MWorld α → List (MOp α) → List (Res δ)
+  | _, [] => []
+  | w, op :: ops =>
+    let r := mstep memo fp H cap w op
+    match r.2 with
+    | some o => o :: runHistM memo fp H cap r.1 ops
+    | none => runHistM memo fp H cap r.1 ops
+
+def MWorld.init (files : List (List α)) (metas : List Meta) : MWorld α :=
+  { disk := World.init files, tors := metas.map fun m => { info := m } }
+
+/-- **Specification** of one run: the listed files exist with the listed sizes and hold at least
+    one byte ⇒ the digests of the chunks of their bytes, in list order, at the listed piece length;
+    otherwise the run fails. -/
+def specGen (H : List α → δ) (m : Meta) (cur : List (List α)) : Res δ :=
+  if (m.files.all fun e => (cur[e.path]?).map List.length == some e.length) &&
+      decide (1 ≤ (m.files.map (·.length)).sum) then
+    .out (.stored ((chunks m.L (m.files.flatMap fun e => cur.getD e.path [])).map H))
+  else .failed
+
+/-- state of the specification: the current metainfo of every Torrent object and the current
+    bytes of every path.  No handles, inodes, list identities, memo slots. -/
+def specHistM (H : List α → δ) : List Meta → List (List α) → List (MOp α) → List (Res δ)
+  | _, _, [] => []
+  | ms, cur, .disk (.replace j b) :: ops => specHistM H ms (cur.set j b) ops
+  | ms, cur, .disk (.rewrite j b) :: ops => specHistM H ms (cur.set j b) ops
+  | ms, cur, .disk _ :: ops => specHistM H ms cur ops
+  | ms, cur, .create b :: ops => specHistM H ms (cur ++ [b]) ops
+  | ms, cur, .setMeta k m :: ops => specHistM H (ms.set k m) cur ops
+  | ms, cur, .newTor m :: ops => specHistM H (ms ++ [m]) cur ops
+  | ms, cur, .get _ :: ops => specHistM H ms cur ops
+  | ms, cur, .generate k :: ops =>
+    (match ms[k]? with
+      | some m => specGen H m cur
+      | none => .failed) :: specHistM H ms cur ops
+
+/-- every piece length that occurs is positive -/
+def metasOk (ms : List Meta) : List (MOp α) → Bool
+  | [] => ms.all fun m => decide (0 < m.L)
+  | .setMeta _ m :: ops => decide (0 < m.L) && metasOk ms ops
+  | .newTor m :: ops => decide (0 < m.L) && metasOk ms ops
+  | _ :: ops => metasOk ms ops
+
+/-- the fingerprint of the round-3 seeded memo: (name, id of the list, length of the list) -/
+def fpSeed (m : Meta) : List Nat := [m.name, m.listId, m.files.length]
 
 end Torf.GenHistory
